@@ -806,6 +806,13 @@ class TreeReduce(ArrayExpr):
     def chunks(self):
         return self._tree.chunks
 
+    def _simplify_up(self, parent, dependents):
+        # Keep the slice pushdown the eagerly built cascade offered: its final
+        # PartialReduce knows how to slice its input instead of its output.
+        if self._other_dependents(parent, dependents):
+            return None
+        return self._tree._simplify_up(parent, dependents)
+
     def _lower(self):
         return self._tree
 
